@@ -630,8 +630,18 @@ def tobytes_shim(s, encoding='ascii', errors='strict'):
     return bytes(s)
 
 
+_symtag_counter = [0]
+
+
+class SymText(str):
+    """opaque text decoded from symbolic bytes (table tags): assumed pairwise distinct and different from every literal"""
+
+
 def tostr_shim(s, encoding='ascii', errors='strict'):
     if isinstance(s, SBytes):
+        if not s.concrete() and not in_message_context() and ctx().opts.get('opaque_tags'):
+            _symtag_counter[0] += 1
+            return SymText('\x00sym%d' % _symtag_counter[0])
         return s.decode(encoding, errors)
     if not isinstance(s, str):
         return s.decode(encoding, errors)
